@@ -179,7 +179,11 @@ func (c *Ctx) N(quick, thorough int) int {
 	return quick
 }
 
+// thoroughTier: set once per run; generators that enumerate (rather than sample) use it to pick their range
+var thoroughTier bool
+
 func openCtx(prop, tier string, seed uint64, out string) *Ctx {
+	thoroughTier = tier == "thorough"
 	os.MkdirAll(out, 0o755)
 	cf, err := os.Create(filepath.Join(out, "cases.txt"))
 	if err != nil {
